@@ -53,7 +53,12 @@ Bases == << BZero, BOne, BPow2(31), B2p32, BPow2(63), B2p64,
             BFromCp(Cp("85000000000000000000")), BPow2(65), BPow2(96), BPow2(128),
             BMul(B2p32, BFromInt(10)), BAdd(B2p32, BFromInt(420)), BAdd(B2p64, BFromInt(420)),
             BFromCp(Cp("5000000000")), BFromCp(Cp("7000000000")), BFromCp(Cp("9000000000")), BFromCp(Cp("10000000000")),
-            BPow2(33), BPow2(40), BPow2(48) >>
+            BPow2(33), BPow2(40), BPow2(48),
+            \* whole multiples of one unit in terms of another (a "normalisation" into a coarser unit changes the meaning:
+            \* 172800s is a test on the second, 2d a test on the day) and round decimal values
+            BFromInt(24), BFromInt(48), BFromInt(60), BFromInt(120), BFromInt(1440), BFromInt(2880), BFromInt(3600), BFromInt(7200),
+            BFromInt(86400), BFromInt(172800), BFromInt(604800), BFromInt(512), BFromInt(1024), BFromInt(2048), BFromInt(1048576),
+            BFromInt(2097152), BFromInt(1073741824), BFromInt(1000), BFromInt(1000000), BFromInt(100), BFromInt(10), BFromInt(365) >>
 NBase == Len(Bases) + NRandom
 \* chain of random values, computed once (constant-level, cached by TLC)
 RECURSIVE RandChain(_, _, _)
